@@ -1160,9 +1160,8 @@ class CacheHistoryEngine:
             p_switch=spec.get("p_switch", 0.02), p_hot=spec.get("p_hot", 0.25), hot_funcs=HOT_FUNCS,
         )
         ctx.sched = sc
-        # objects built in the prelude are visible to every thread (read-only sharing of results)
-        for t in range(len(threads)):
-            ctx.objs[f"t{t}"] = list(ctx.objs.get("main", []))
+        # objects are thread-private (a caller that edits an array another of its threads is reading
+        # has a data race of its own); the prelude matters through the caches it leaves behind
         bodies = [(lambda t=t: _run_ops(ctx, f"t{t}", threads[t])) for t in range(len(threads))]
         sc.run(bodies)
         if sc.errors:
